@@ -119,7 +119,12 @@ class Folder(object):
                 raise Unfoldable("binop")
             a, b = ev(e.left), ev(e.right)
             if isinstance(e.op, ast.Mod) and isinstance(a, (bytes, str)):
-                raise Unfoldable("%-formatting")
+                # %-formatting of constants by constants is as pure as arithmetic; anything else (objects with __str__) is not folded
+                def plain(x):
+                    return (isinstance(x, (int, str, bytes)) and not isinstance(x, bool)) or (isinstance(x, tuple) and all(plain(y) for y in x)) \
+                        or (isinstance(x, dict) and all(isinstance(k, str) and plain(v) for k, v in x.items()))
+                if not plain(b):
+                    raise Unfoldable("%-formatting")
             if isinstance(e.op, (ast.Pow, ast.LShift)) and isinstance(b, int) and b > 1 << 16:
                 raise Unfoldable("huge")
             try:
@@ -315,8 +320,12 @@ class Folder(object):
                         return _struct.unpack(args[0], args[1]) if f.attr == "unpack" else _struct.pack(*args)
                     except Exception as x:   # noqa
                         raise Unfoldable(str(x))
-                if r and r[0] == "ext" and r[1] == "int" and False:
-                    pass
+            if isinstance(f.value, ast.Name) and f.value.id == "int" and f.value.id not in env and f.attr == "from_bytes" and args and isinstance(args[0], bytes):
+                # int.from_bytes(b, order[, signed=..]): a pure function of constants
+                try:
+                    return int.from_bytes(*args, **kwargs)
+                except Exception as x:   # noqa
+                    raise Unfoldable(str(x))
             recv = ev(f.value)
             try:
                 if isinstance(recv, str) and f.attr == "format":
@@ -335,6 +344,8 @@ class Folder(object):
                     return tuple(recv.values())
                 if isinstance(recv, _FrozenDict) and f.attr == "get" and 1 <= len(args) <= 2:
                     return recv.get(*args)
+                if isinstance(recv, int) and not isinstance(recv, bool) and f.attr == "to_bytes":
+                    return recv.to_bytes(*args, **kwargs)
                 if isinstance(recv, (str, bytes)) and f.attr in ("upper", "lower", "strip") and not args:
                     return getattr(recv, f.attr)()
             except Unfoldable:
